@@ -96,6 +96,10 @@ func Ltoi(shape Shape, strides []int, coords ...int) (at int, err error) {
 			err = errors.Errorf(indexOOBAxis, i, coord, size)
 			return
 		}
+		if coord < 0 {
+			err = errors.Errorf(indexOOBAxis, i, coord, size)
+			return
+		}
 
 		var stride int
 		switch {
